@@ -123,3 +123,502 @@ Proof.
            match goal with |- context [if ?c then _ else _] => destruct c end;
              cbn; rewrite sendSegment_eq; cbn; repeat split.
 Qed.
+
+(* ------------------------------------------------------------------ emission bookkeeping *)
+(* frames appended between two states *)
+Definition emits (P : frame -> Prop) (t t' : tcp) : Prop :=
+  exists l, out t' = out t ++ l /\ Forall P l.
+
+Lemma emits_refl P t : emits P t t.
+Proof. exists []. rewrite app_nil_r. split; [reflexivity|constructor]. Qed.
+Lemma emits_trans P a b c : emits P a b -> emits P b c -> emits P a c.
+Proof.
+  intros (l1 & H1 & F1) (l2 & H2 & F2). exists (l1 ++ l2). rewrite H2, H1, app_assoc.
+  split; [reflexivity|apply Forall_app; split; assumption].
+Qed.
+Lemma emits_weaken (P Q : frame -> Prop) a b : (forall f, P f -> Q f) -> emits P a b -> emits Q a b.
+Proof. intros H (l & H1 & F). exists l. split; [exact H1|]. eapply Forall_impl; [exact H|exact F]. Qed.
+Lemma emits_same_out P a b : out b = out a -> emits P a b.
+Proof. intros H. exists []. rewrite app_nil_r. split; [exact H|constructor]. Qed.
+
+(* the sender state up to maxSentAck *)
+Definition sn_eq (t t' : tcp) : Prop := exists m, SN t' = (SN t) <| maxSentAck := m |>.
+Lemma sn_eq_refl t : sn_eq t t.
+Proof. exists (maxSentAck (SN t)). destruct (SN t); reflexivity. Qed.
+Lemma sn_eq_trans a b c : sn_eq a b -> sn_eq b c -> sn_eq a c.
+Proof. intros (m1 & H1) (m2 & H2). exists m2. rewrite H2, H1. reflexivity. Qed.
+Lemma sn_eq_same a b : SN b = SN a -> sn_eq a b.
+Proof. intros H. exists (maxSentAck (SN a)). rewrite H. destruct (SN a); reflexivity. Qed.
+
+Definition nodata (f : frame) : Prop := f_data f = [].
+Definition ackonly (t t' : tcp) : Prop := emits nodata t t' /\ sn_eq t t'.
+Lemma ackonly_refl t : ackonly t t. Proof. split; [apply emits_refl|apply sn_eq_refl]. Qed.
+Lemma ackonly_trans a b c : ackonly a b -> ackonly b c -> ackonly a c.
+Proof. intros (A1 & A2) (B1 & B2). split; [eapply emits_trans|eapply sn_eq_trans]; eassumption. Qed.
+Lemma ackonly_silent a b : out b = out a -> SN b = SN a -> ackonly a b.
+Proof. intros H1 H2. split; [apply emits_same_out; exact H1|apply sn_eq_same; exact H2]. Qed.
+
+Lemma sendAck_ackonly t : ackonly t (sendAck t).
+Proof.
+  unfold sendAck. rewrite sendSegment_eq. split.
+  - eexists. cbn. split; [reflexivity|]. constructor; [reflexivity|constructor].
+  - eexists. cbn. reflexivity.
+Qed.
+
+Lemma ackonly_upd (g : tcp -> tcp) :
+  (forall X, out (g X) = out X) -> (forall X, SN (g X) = SN X) -> forall X, ackonly X (g X).
+Proof. intros H1 H2 X. apply ackonly_silent; [apply H1|apply H2]. Qed.
+
+Ltac ack_step :=
+  match goal with
+  | |- ackonly ?t ?t => apply ackonly_refl
+  | |- ackonly _ (sendAck ?X) => apply (ackonly_trans _ X); [|apply sendAck_ackonly]
+  | |- ackonly _ (set ?F ?f ?X) =>
+      apply (ackonly_trans _ X); [|apply (ackonly_upd (set F f)); intros; reflexivity]
+  end.
+Ltac split_ifs := repeat match goal with |- context [if ?c then _ else _] => destruct c end.
+
+Lemma consumeSegment_ackonly t fl d sq sl fh :
+  ackonly t (fst (fst (consumeSegment t fl d sq sl fh))).
+Proof.
+  unfold consumeSegment, readyToRead. cbv zeta.
+  destruct (0 <? sl); [destruct (negb (inWindow (rcvNxt (RC t)) sq sl)); [|destruct (lessThan sq (rcvNxt (RC t)))]
+                      |destruct (negb (sq =? rcvNxt (RC t)))];
+  destruct (has fl fFin); cbn [fst]; repeat ack_step.
+Qed.
+
+(* the local function popIt of drainPending, named *)
+Definition popIt (f : nat) (s : pseg) (t : tcp) (data : list Z) : tcp :=
+  match pop pless (pending (RC t)) with
+  | Some (h', _) =>
+      drainPending f (t <| RC := (RC t) <| pending := h' |>
+                           <| pendUsed := u32 (pendUsed (RC t) - plogicalLen (p_flags s) data) |> |>)
+  | None => t
+  end.
+
+Lemma drainPending_S f t :
+  drainPending (S f) t =
+  if rclosed (RC t) then t else
+  match pending (RC t) with
+  | [] => t
+  | s :: _ =>
+      if lessThan (add (p_seq s) (u32 (len (p_data s) - 1))) (rcvNxt (RC t)) then popIt f s t (p_data s)
+      else
+        let '(t1, ok, data') := consumeSegment t (p_flags s) (p_data s) (p_seq s) (len (p_data s)) true in
+        if ok then popIt f s t1 data' else t
+  end.
+Proof. reflexivity. Qed.
+
+Lemma drainPending_ackonly fuel : forall t, ackonly t (drainPending fuel t).
+Proof.
+  induction fuel as [|fuel IH]; intros t; [apply ackonly_refl|]. rewrite drainPending_S.
+  destruct (rclosed (RC t)); [apply ackonly_refl|].
+  destruct (pending (RC t)) as [|s rest] eqn:Ep; [apply ackonly_refl|].
+  assert (Pop : forall t0 d, ackonly t0 (popIt fuel s t0 d)).
+  { intros t0 d. unfold popIt. destruct (pop pless (pending (RC t0))) as [[h' x]|]; [|apply ackonly_refl].
+    eapply ackonly_trans; [|apply IH]. apply (ackonly_upd (set RC _)); intros; reflexivity. }
+  destruct (lessThan _ _); [apply Pop|].
+  pose proof (consumeSegment_ackonly t (p_flags s) (p_data s) (p_seq s) (len (p_data s)) true) as Hc.
+  destruct (consumeSegment t (p_flags s) (p_data s) (p_seq s) (len (p_data s)) true) as [[t1 ok] d'].
+  cbn [fst] in Hc. destruct ok; [|apply ackonly_refl]. eapply ackonly_trans; [exact Hc|apply Pop].
+Qed.
+
+Lemma rcvHandle_ackonly t sg : ackonly t (rcvHandle t sg).
+Proof.
+  unfold rcvHandle. destruct (rclosed (RC t)); [apply ackonly_refl|].
+  destruct (negb (acceptable _ _ _)); [apply sendAck_ackonly|].
+  pose proof (consumeSegment_ackonly t (s_flags sg) (s_data sg) (s_seq sg) (len (s_data sg)) false) as Hc.
+  destruct (consumeSegment t (s_flags sg) (s_data sg) (s_seq sg) (len (s_data sg)) false) as [[t1 ok] d'].
+  cbn [fst] in Hc. destruct ok; cbn [negb].
+  - eapply ackonly_trans; [exact Hc|apply drainPending_ackonly].
+  - destruct (_ || _); [|apply ackonly_refl].
+    destruct (pendUsed (RC t) <? pendSize (RC t)); repeat ack_step.
+Qed.
+
+Lemma nonZeroWindow_ackonly t : ackonly t (nonZeroWindow t).
+Proof. unfold nonZeroWindow. destruct (negb _); [apply ackonly_refl|apply sendAck_ackonly]. Qed.
+
+Lemma loopExit_out t : out (loopExit t) = out t.
+Proof. unfold loopExit. split_ifs; reflexivity. Qed.
+Lemma loopExit_SN t : SN (loopExit t) = SN t.
+Proof. unfold loopExit. split_ifs; reflexivity. Qed.
+Lemma loopExit_ackonly t : ackonly t (loopExit t).
+Proof. apply ackonly_silent; [apply loopExit_out|apply loopExit_SN]. Qed.
+
+(* ------------------------------------------------------------------ sender bookkeeping *)
+(* the part of the sender record that congestion control never touches *)
+Definition core_same (s s' : sndr) : Prop :=
+  sndWnd s' = sndWnd s /\ sndUna s' = sndUna s /\ sndNxt s' = sndNxt s /\ sndNxtList s' = sndNxtList s /\
+  sclosed s' = sclosed s /\ wsent s' = wsent s /\ wunsent s' = wunsent s /\
+  maxPayload s' = maxPayload s /\ sndWndScale s' = sndWndScale s /\ maxSentAck s' = maxSentAck s.
+
+Ltac core_tac := unfold core_same; cbn; repeat split; reflexivity.
+
+Lemma core_same_refl s : core_same s s. Proof. core_tac. Qed.
+Lemma core_same_trans a b c : core_same a b -> core_same b c -> core_same a c.
+Proof. unfold core_same. intros A B. repeat split; destruct A as (?&?&?&?&?&?&?&?&?&?), B as (?&?&?&?&?&?&?&?&?&?); congruence. Qed.
+
+Lemma renoCA_core s n : core_same s (renoCA s n).
+Proof. unfold renoCA. destruct (cwnd s <=? _); core_tac. Qed.
+Lemma renoUpdate_core s n : core_same s (renoUpdate s n).
+Proof.
+  unfold renoUpdate. destruct (cwnd s <? ssthresh s); [|apply renoCA_core].
+  destruct (ssthresh s <=? cwnd s + n); cbv zeta beta iota.
+  - destruct (_ =? 0); [core_tac|]. eapply core_same_trans; [|apply renoCA_core]. core_tac.
+  - destruct (_ =? 0); [core_tac|]. eapply core_same_trans; [|apply renoCA_core]. core_tac.
+Qed.
+Lemma reduceSsthresh_core s : core_same s (reduceSsthresh s).
+Proof. unfold reduceSsthresh. core_tac. Qed.
+Lemma enterFR_core s : core_same s (enterFastRecovery s).
+Proof. unfold enterFastRecovery. core_tac. Qed.
+Lemma leaveFR_core s : core_same s (leaveFastRecovery s).
+Proof. unfold leaveFastRecovery. core_tac. Qed.
+
+Lemma checkDuplicateAck_core s ack ll wnd : core_same s (fst (checkDuplicateAck s ack ll wnd)).
+Proof.
+  unfold checkDuplicateAck.
+  destruct (frActive s).
+  - destruct (negb (inRange _ _ _)); [apply core_same_refl|].
+    destruct (lessThan _ _); [apply leaveFR_core|].
+    destruct (_ || _); [apply core_same_refl|].
+    destruct (ack =? frFirst s); cbn [fst]; [destruct (cwnd s <? frMaxCwnd s); core_tac|core_tac].
+  - destruct (_ || _); cbn [fst]; [core_tac|].
+    cbv zeta. destruct (_ <? nDupAckThreshold); cbn [fst]; [core_tac|].
+    destruct (negb (lessThan _ _)); cbn [fst]; [core_tac|].
+    eapply core_same_trans; [|core_tac].
+    eapply core_same_trans; [|apply enterFR_core].
+    eapply core_same_trans; [|apply reduceSsthresh_core]. core_tac.
+Qed.
+
+(* a fast retransmission is triggered only by a pure ACK that repeats the window in force *)
+Lemma checkDuplicateAck_rtx s ack ll wnd :
+  snd (checkDuplicateAck s ack ll wnd) = true -> ll = 0 /\ sndWnd s = wnd.
+Proof.
+  unfold checkDuplicateAck.
+  destruct (frActive s).
+  - destruct (negb (inRange _ _ _)); [discriminate|].
+    destruct (lessThan _ _); [discriminate|].
+    destruct (negb (ll =? 0) || negb (sndWnd s =? wnd)) eqn:E; [discriminate|].
+    intros _. lia.
+  - destruct (negb (ack =? sndUna s) || negb (ll =? 0) || negb (sndWnd s =? wnd) || (ack =? sndNxt s)) eqn:E;
+      [discriminate|]. intros _. lia.
+Qed.
+
+(* ------------------------------------------------------------------ sendData / sndHandle *)
+Definition frame_ok (t : tcp) (f : frame) : Prop :=
+  okf (add (sndUna (SN t)) (sndWnd (SN t))) (maxPayload (SN t)) f.
+
+Lemma frame_ok_same t t' f : snd_same t t' -> frame_ok t f -> frame_ok t' f.
+Proof. unfold snd_same, frame_ok. intros (A&B&C&D) H. rewrite A, B, C. exact H. Qed.
+
+Lemma nodata_frame_ok t f : nodata f -> frame_ok t f.
+Proof. intros H. left. exact H. Qed.
+
+Lemma ackonly_snd_same t t' : ackonly t t' -> snd_same t t'.
+Proof. intros (_ & m & H). unfold snd_same. rewrite H. cbn. repeat split. Qed.
+
+Lemma sendData_spec t idle : 0 <= maxPayload (SN t) ->
+  emits (frame_ok t) t (sendData t idle) /\ snd_same t (sendData t idle).
+Proof.
+  intros Hm. unfold sendData. cbv zeta.
+  set (s1 := if _ : bool then _ else SN t).
+  assert (Hs1 : sndUna s1 = sndUna (SN t) /\ sndWnd s1 = sndWnd (SN t) /\ maxPayload s1 = maxPayload (SN t)
+                /\ sndWndScale s1 = sndWndScale (SN t)).
+  { subst s1. destruct (_ && _); cbn; repeat split. }
+  destruct Hs1 as (U & W & M & Sc).
+  set (t1 := t <| SN := s1 |>).
+  destruct (sendLoop_spec (S (wbytes (wunsent s1))) t1 (add (sndUna s1) (sndWnd s1)) (maxPayload s1))
+    as (l & Ho & Hf & Hs); [lia|].
+  set (t2 := sendLoop _ t1 _ _) in *.
+  assert (E : emits (frame_ok t) t t2).
+  { exists l. split; [exact Ho|]. unfold frame_ok. rewrite <- U, <- W, <- M. exact Hf. }
+  assert (S2 : snd_same t t2).
+  { eapply snd_same_trans; [|exact Hs]. unfold snd_same, t1. cbn. repeat split; assumption. }
+  destruct (negb (tstate (SN t2) =? tEnabled) && _).
+  - split.
+    + destruct E as (l' & E1 & E2). exists l'. split; [cbn; exact E1|exact E2].
+    + eapply snd_same_trans; [exact S2|]. unfold snd_same. cbn. repeat split.
+  - split; assumption.
+Qed.
+
+Lemma resendSegment_spec t : emits (fun _ => True) t (resendSegment t) /\ snd_same t (resendSegment t)
+  /\ (exists l, out (resendSegment t) = out t ++ l /\ (length l <= 1)%nat).
+Proof.
+  unfold resendSegment. cbv zeta.
+  destruct (wsent _ ++ wunsent _) as [|w r].
+  - split; [apply emits_same_out; reflexivity|]. split; [unfold snd_same; cbn; repeat split|].
+    exists []. rewrite app_nil_r. split; [reflexivity|cbn; lia].
+  - rewrite sendSegment_eq. split; [|split].
+    + eexists. cbn. split; [reflexivity|]. constructor; [exact I|constructor].
+    + unfold snd_same. cbn. repeat split.
+    + eexists. cbn. split; [reflexivity|cbn; lia].
+Qed.
+
+(* sndHandle in named pieces *)
+Definition clampRto (newRto : Z) : Z := if newRto <? minRTO then minRTO else newRto.
+
+Definition rttStart (t : tcp) (ack newRto : Z) : sndr :=
+  let s0 := SN t in
+  if negb (tsOk t) && lessThan (rttSeq s0) ack
+  then s0 <| rto := clampRto newRto |> <| rttSeq := sndNxt s0 |> else s0.
+
+(* the "if ack-1 in [sndUna, sndNxt)" block: acknowledged data leaves the write list *)
+Definition ackProcess (t3 : tcp) (ack : Z) (tsecr : bool) (crto : Z) : tcp :=
+  let s3 := SN t3 in
+  if inRange (u32 (ack - 1)) (sndUna s3) (sndNxt s3) then
+    let s4 := s3 <| dupAck := 0 |> <| tstate := if tstate s3 =? tDisabled then tDisabled else tOrphaned |> in
+    let s5 := if tsOk t3 && tsecr then s4 <| rto := crto |> else s4 in
+    let acked := size (sndUna s5) ack in
+    let '(sent', unsent', removed) :=
+      ackLoop (S (length (wsent s5) + length (wunsent s5))) (wsent s5) (wunsent s5) acked 0 in
+    let s6 := s5 <| sndUna := ack |> <| wsent := sent' |> <| wunsent := unsent' |>
+                 <| outstanding := outstanding s5 - removed |> in
+    let s7 := if frActive s6 then s6 else renoUpdate s6 removed in
+    let s8 := if outstanding s7 <? 0 then s7 <| outstanding := 0 |> else s7 in
+    t3 <| SN := s8 |> <| sndBufUsed := sndBufUsed t3 - acked |>
+  else t3.
+
+Lemma sndHandle_eq t sg wnd newRto idle :
+  sndHandle t sg wnd newRto idle =
+  let '(s2, rtx) := checkDuplicateAck (rttStart t (s_ack sg) newRto) (s_ack sg)
+                                      (plogicalLen (s_flags sg) (s_data sg)) wnd in
+  let t4 := ackProcess (t <| SN := s2 <| sndWnd := wnd |> |>) (s_ack sg) (s_tsecr sg) (clampRto newRto) in
+  sendData (if rtx then resendSegment t4 else t4) idle.
+Proof. reflexivity. Qed.
+
+Lemma rttStart_core t ack r : core_same (SN t) (rttStart t ack r).
+Proof. unfold rttStart. cbv zeta. destruct (_ && _); core_tac. Qed.
+
+Lemma ackProcess_facts t3 ack tsecr crto :
+  out (ackProcess t3 ack tsecr crto) = out t3 /\
+  maxPayload (SN (ackProcess t3 ack tsecr crto)) = maxPayload (SN t3) /\
+  sndWndScale (SN (ackProcess t3 ack tsecr crto)) = sndWndScale (SN t3) /\
+  sndWnd (SN (ackProcess t3 ack tsecr crto)) = sndWnd (SN t3).
+Proof.
+  unfold ackProcess. cbv zeta.
+  destruct (inRange _ _ _); [|repeat split].
+  set (s5 := if _ : bool then _ else _).
+  assert (H5 : maxPayload s5 = maxPayload (SN t3) /\ sndWndScale s5 = sndWndScale (SN t3) /\ sndWnd s5 = sndWnd (SN t3)).
+  { subst s5. destruct (_ && _); cbn; repeat split. }
+  destruct (ackLoop _ _ _ _ _) as [[sent' unsent'] removed].
+  set (s6 := s5 <| sndUna := ack |> <| wsent := sent' |> <| wunsent := unsent' |> <| outstanding := _ |>).
+  assert (H6 : maxPayload s6 = maxPayload s5 /\ sndWndScale s6 = sndWndScale s5 /\ sndWnd s6 = sndWnd s5)
+    by (subst s6; cbn; repeat split).
+  set (s7 := if frActive s6 then s6 else _).
+  assert (H7 : maxPayload s7 = maxPayload s6 /\ sndWndScale s7 = sndWndScale s6 /\ sndWnd s7 = sndWnd s6).
+  { subst s7. destruct (frActive s6); [repeat split|].
+    destruct (renoUpdate_core s6 removed) as (?&?&?&?&?&?&?&?&?&?). repeat split; assumption. }
+  destruct (outstanding s7 <? 0); cbn; (split; [reflexivity|]); lia.
+Qed.
+
+Lemma sndHandle_spec t sg wnd newRto idle : 0 <= maxPayload (SN t) ->
+  let t' := sndHandle t sg wnd newRto idle in
+  emits (fun f => frame_ok t' f \/ (plogicalLen (s_flags sg) (s_data sg) = 0 /\ sndWnd (SN t) = wnd)) t t' /\
+  maxPayload (SN t') = maxPayload (SN t) /\ sndWndScale (SN t') = sndWndScale (SN t) /\ sndWnd (SN t') = wnd.
+Proof.
+  intros Hm. rewrite sndHandle_eq. cbv zeta.
+  pose proof (checkDuplicateAck_core (rttStart t (s_ack sg) newRto) (s_ack sg)
+                (plogicalLen (s_flags sg) (s_data sg)) wnd) as Hc.
+  pose proof (checkDuplicateAck_rtx (rttStart t (s_ack sg) newRto) (s_ack sg)
+                (plogicalLen (s_flags sg) (s_data sg)) wnd) as Hr.
+  destruct (checkDuplicateAck _ _ _ _) as [s2 rtx]. cbn [fst snd] in Hc, Hr.
+  pose proof (rttStart_core t (s_ack sg) newRto) as H1.
+  pose proof (core_same_trans _ _ _ H1 Hc) as H2. clear Hc.
+  destruct H2 as (_&_&_&_&_&_&_&Mp&Sc&_).
+  destruct H1 as (W1&_).
+  set (t3 := t <| SN := s2 <| sndWnd := wnd |> |>).
+  destruct (ackProcess_facts t3 (s_ack sg) (s_tsecr sg) (clampRto newRto)) as (O4 & M4 & S4 & W4).
+  set (t4 := ackProcess t3 _ _ _) in *.
+  assert (M4' : maxPayload (SN t4) = maxPayload (SN t)) by (rewrite M4; subst t3; cbn; exact Mp).
+  assert (S4' : sndWndScale (SN t4) = sndWndScale (SN t)) by (rewrite S4; subst t3; cbn; exact Sc).
+  assert (W4' : sndWnd (SN t4) = wnd) by (rewrite W4; subst t3; cbn; reflexivity).
+  assert (O4' : out t4 = out t) by (rewrite O4; subst t3; cbn; reflexivity).
+  destruct rtx.
+  - destruct (resendSegment_spec t4) as (E5 & S5 & _).
+    set (t5 := resendSegment t4) in *.
+    destruct S5 as (U5 & W5 & M5 & Sc5).
+    destruct (sendData_spec t5 idle) as (E6 & S6); [lia|].
+    set (t6 := sendData t5 idle) in *.
+    destruct S6 as (U6 & W6 & M6 & Sc6).
+    split; [|repeat split; congruence].
+    destruct (Hr eq_refl) as (L0 & Wd).
+    destruct E5 as (l5 & O5 & _). destruct E6 as (l6 & O6 & F6).
+    exists (l5 ++ l6). split; [rewrite O6, O5, O4', app_assoc; reflexivity|].
+    apply Forall_app. split.
+    + apply Forall_forall. intros f _. right. split; [exact L0|]. rewrite <- W1. exact Wd.
+    + eapply Forall_impl; [|exact F6]. intros f Hf. left.
+      apply (frame_ok_same t5 t6); [repeat split; assumption|exact Hf].
+  - destruct (sendData_spec t4 idle) as (E6 & S6); [lia|].
+    set (t6 := sendData t4 idle) in *.
+    split; [|destruct S6 as (U6 & W6 & M6 & Sc6); repeat split; congruence].
+    destruct E6 as (l6 & O6 & F6). exists l6. split; [rewrite O6, O4'; reflexivity|].
+    eapply Forall_impl; [|exact F6]. intros f Hf. left. apply (frame_ok_same t4 t6); assumption.
+Qed.
+
+(* ------------------------------------------------------------------ one event *)
+Definition cfg_same (t t' : tcp) : Prop :=
+  maxPayload (SN t') = maxPayload (SN t) /\ sndWndScale (SN t') = sndWndScale (SN t).
+
+Lemma snd_same_cfg t t' : snd_same t t' -> cfg_same t t'.
+Proof. intros (_&_&A&B). split; assumption. Qed.
+
+Lemma emits_then_ackonly (P : Prop) t t1 t' :
+  emits (fun f => frame_ok t1 f \/ P) t t1 -> ackonly t1 t' -> emits (fun f => frame_ok t' f \/ P) t t'.
+Proof.
+  intros E A. pose proof (ackonly_snd_same _ _ A) as S. destruct A as (A & _).
+  eapply emits_trans.
+  - eapply emits_weaken; [|exact E]. intros f [H|H]; [left; eapply frame_ok_same; eassumption|right; exact H].
+  - eapply emits_weaken; [|exact A]. intros f H. left. apply nodata_frame_ok. exact H.
+Qed.
+
+Lemma ackonly_emits_ok (P : Prop) t t' : ackonly t t' -> emits (fun f => frame_ok t' f \/ P) t t'.
+Proof. intros A. eapply emits_then_ackonly; [apply emits_refl|exact A]. Qed.
+
+Lemma resetConnection_ackonly t : ackonly t (resetConnection t).
+Proof.
+  unfold resetConnection. split.
+  - eexists. cbn. split; [reflexivity|]. constructor; [reflexivity|constructor].
+  - apply sn_eq_same. reflexivity.
+Qed.
+
+Definition pure_same_window (t : tcp) (sg : seg) : Prop :=
+  plogicalLen (s_flags sg) (s_data sg) = 0 /\
+  u32 (Z.shiftl (s_wnd sg) (sndWndScale (SN t))) = sndWnd (SN t).
+
+Lemma handleSegment_spec t sg r idle : 0 <= maxPayload (SN t) ->
+  let t' := handleSegment t sg r idle in
+  emits (fun f => frame_ok t' f \/ pure_same_window t sg) t t' /\ cfg_same t t'.
+Proof.
+  intros Hm. unfold handleSegment.
+  destruct (negb (estate t =? stConnected)).
+  { split; [apply emits_refl|split; reflexivity]. }
+  destruct (has (s_flags sg) fRst).
+  { destruct (acceptable _ _ _).
+    - pose proof (resetConnection_ackonly t) as A. split; [apply ackonly_emits_ok; exact A|].
+      apply snd_same_cfg, ackonly_snd_same, A.
+    - assert (A : ackonly t (loopExit (if negb (rcvNxt (RC t) =? maxSentAck (SN t)) then sendAck t else t))).
+      { eapply ackonly_trans; [|apply loopExit_ackonly].
+        destruct (negb (rcvNxt (RC t) =? maxSentAck (SN t))); [apply sendAck_ackonly|apply ackonly_refl]. }
+      split; [apply ackonly_emits_ok; exact A|apply snd_same_cfg, ackonly_snd_same, A]. }
+  cbv zeta.
+  set (t1 := if has (s_flags sg) fAck then _ else t).
+  assert (H1 : emits (fun f => frame_ok t1 f \/ pure_same_window t sg) t t1 /\ cfg_same t t1).
+  { subst t1. destruct (has (s_flags sg) fAck); [|split; [apply emits_refl|split; reflexivity]].
+    destruct (tsOk t && negb (s_ts sg)); [split; [apply emits_refl|split; reflexivity]|].
+    pose proof (rcvHandle_ackonly t sg) as A. pose proof (ackonly_snd_same _ _ A) as (U&W&M&Sc).
+    set (tr := rcvHandle t sg) in *.
+    destruct (sndHandle_spec tr sg (u32 (Z.shiftl (s_wnd sg) (sndWndScale (SN t)))) r idle) as (E & M2 & S2 & W2); [lia|].
+    split; [|split; congruence].
+    eapply emits_trans.
+    - eapply emits_weaken; [|exact (proj1 A)]. intros f Hf. left. apply nodata_frame_ok. exact Hf.
+    - eapply emits_weaken; [|exact E]. intros f [Hf|(L0 & Wd)]; [left; exact Hf|right].
+      split; [exact L0|]. rewrite <- W. symmetry. exact Wd. }
+  destruct H1 as (E1 & C1).
+  assert (A : ackonly t1 (loopExit (if negb (rcvNxt (RC t1) =? maxSentAck (SN t1)) then sendAck t1 else t1))).
+  { eapply ackonly_trans; [|apply loopExit_ackonly].
+    destruct (negb (rcvNxt (RC t1) =? maxSentAck (SN t1))); [apply sendAck_ackonly|apply ackonly_refl]. }
+  split; [eapply emits_then_ackonly; eassumption|].
+  destruct (snd_same_cfg _ _ (ackonly_snd_same _ _ A)) as (X & Y). destruct C1 as (X1 & Y1).
+  split; congruence.
+Qed.
+
+Lemma appWrite_spec t d idle : 0 <= maxPayload (SN t) ->
+  let t' := fst (appWrite t d idle) in emits (frame_ok t') t t' /\ cfg_same t t'.
+Proof.
+  intros Hm. unfold appWrite.
+  destruct (estate t =? stError); [split; [apply emits_refl|split; reflexivity]|].
+  destruct (negb (estate t =? stConnected)); [split; [apply emits_refl|split; reflexivity]|].
+  destruct (len d =? 0); [split; [apply emits_refl|split; reflexivity]|].
+  destruct (sndClosedE t); [split; [apply emits_refl|split; reflexivity]|].
+  cbv zeta. destruct (_ <=? 0); [split; [apply emits_refl|split; reflexivity]|].
+  cbn [fst].
+  match goal with |- context [sendData ?T idle] => set (t1 := T) end.
+  destruct (sendData_spec t1 idle) as (E & S); [subst t1; cbn; exact Hm|].
+  split.
+  - destruct E as (l & O & F). exists l. split; [rewrite O; subst t1; cbn; reflexivity|].
+    eapply Forall_impl; [|exact F]. intros f Hf. eapply frame_ok_same; eassumption.
+  - destruct S as (_&_&M&Sc). split; [rewrite M|rewrite Sc]; subst t1; cbn; reflexivity.
+Qed.
+
+Lemma appShutdownWrite_spec t idle : 0 <= maxPayload (SN t) ->
+  let t' := fst (appShutdownWrite t idle) in emits (frame_ok t') t t' /\ cfg_same t t'.
+Proof.
+  intros Hm. unfold appShutdownWrite.
+  destruct (negb (estate t =? stConnected)); [split; [apply emits_refl|split; reflexivity]|].
+  destruct (sndClosedE t); [split; [apply emits_refl|split; reflexivity]|].
+  cbv zeta. cbn [fst].
+  match goal with |- context [sendData ?T idle] => set (t1 := T) end.
+  destruct (sendData_spec t1 idle) as (E & S); [subst t1; cbn; exact Hm|].
+  set (t2 := sendData t1 idle) in *.
+  assert (S' : snd_same t2 (loopExit (t2 <| SN := (SN t2) <| sclosed := true |> |>))).
+  { unfold snd_same. rewrite loopExit_SN. cbn. repeat split. }
+  split.
+  - destruct E as (l & O & F). exists l. split; [rewrite loopExit_out; cbn; rewrite O; subst t1; cbn; reflexivity|].
+    eapply Forall_impl; [|exact F]. intros f Hf. eapply frame_ok_same; [exact S'|]. eapply frame_ok_same; eassumption.
+  - destruct S as (_&_&M&Sc). destruct S' as (_&_&M'&Sc').
+    split; [rewrite M', M|rewrite Sc', Sc]; subst t1; cbn; reflexivity.
+Qed.
+
+Lemma rtoExpired_spec t idle : 0 <= maxPayload (SN t) ->
+  let t' := fst (rtoExpired t idle) in emits (frame_ok t') t t' /\ cfg_same t t'.
+Proof.
+  intros Hm. unfold rtoExpired. cbv zeta.
+  destruct (tstate (SN t) =? tOrphaned); [split; [apply emits_same_out; reflexivity|split; reflexivity]|].
+  destruct (negb (tstate (SN t) =? tEnabled)); [split; [apply emits_refl|split; reflexivity]|].
+  destruct (maxRTO <=? _); [split; [apply emits_same_out; reflexivity|split; reflexivity]|].
+  cbn [fst].
+  match goal with |- context [sendData ?T idle] => set (t1 := T) end.
+  assert (S1 : snd_same t t1).
+  { subst t1. unfold snd_same, reduceSsthresh. destruct (frActive _); cbn; repeat split. }
+  destruct (sendData_spec t1 idle) as (E & S); [destruct S1 as (_&_&M&_); rewrite M; exact Hm|].
+  split.
+  - destruct E as (l & O & F). exists l. split; [rewrite O; subst t1; cbn; reflexivity|].
+    eapply Forall_impl; [|exact F]. intros f Hf. eapply frame_ok_same; eassumption.
+  - apply snd_same_cfg. eapply snd_same_trans; eassumption.
+Qed.
+
+Lemma appRead_ackonly t : ackonly t (fst (fst (appRead t))).
+Proof.
+  unfold appRead.
+  destruct (_ && _ && _); [apply ackonly_refl|].
+  destruct (rcvBufUsed t =? 0); [apply ackonly_refl|].
+  destruct (rcvList t) as [|v rest]; [apply ackonly_refl|].
+  cbv zeta. cbn [fst].
+  match goal with |- context [nonZeroWindow ?T] => set (t1 := T) end.
+  assert (A1 : ackonly t t1) by (subst t1; repeat ack_step).
+  destruct (_ && _ && _); [|exact A1].
+  eapply ackonly_trans; [exact A1|]. eapply ackonly_trans; [apply nonZeroWindow_ackonly|apply loopExit_ackonly].
+Qed.
+
+Definition fast_rexmit_event (t : tcp) (e : event) : Prop :=
+  exists sg r, e = ESeg sg r /\ pure_same_window t sg.
+
+Lemma step_frames t e : 0 <= maxPayload (SN t) ->
+  let t' := fst (step t e) in
+  Forall (fun f => frame_ok t' f \/ fast_rexmit_event t e) (out t') /\ cfg_same t t'.
+Proof.
+  intros Hm. unfold step. set (t0 := t <| out := [] |>).
+  assert (Hm0 : 0 <= maxPayload (SN t0)) by exact Hm.
+  assert (Fin : forall t', emits (fun f => frame_ok t' f \/ fast_rexmit_event t e) t0 t' -> cfg_same t0 t' ->
+                Forall (fun f => frame_ok t' f \/ fast_rexmit_event t e) (out t') /\ cfg_same t t').
+  { intros t' (l & O & F) C. split; [rewrite O; exact F|exact C]. }
+  destruct e as [sg r|d| | |]; cbn [fst].
+  - destruct (handleSegment_spec t0 sg r false Hm0) as (E & C). apply Fin; [|exact C].
+    eapply emits_weaken; [|exact E]. intros f [H|H]; [left; exact H|right; exists sg, r; split; [reflexivity|exact H]].
+  - destruct (appWrite_spec t0 d false Hm0) as (E & C).
+    destruct (appWrite t0 d false) as [t1 n]. cbn [fst] in *. apply Fin; [|exact C].
+    eapply emits_weaken; [|exact E]. intros f H; left; exact H.
+  - pose proof (appRead_ackonly t0) as A. destruct (appRead t0) as [[t1 v] err]. cbn [fst] in *.
+    apply Fin; [apply ackonly_emits_ok; exact A|apply snd_same_cfg, ackonly_snd_same, A].
+  - destruct (appShutdownWrite_spec t0 false Hm0) as (E & C).
+    destruct (appShutdownWrite t0 false) as [t1 n]. cbn [fst] in *. apply Fin; [|exact C].
+    eapply emits_weaken; [|exact E]. intros f H; left; exact H.
+  - destruct (negb (estate t0 =? stConnected)); cbn [fst]; [apply Fin; [apply emits_refl|split; reflexivity]|].
+    destruct (rtoExpired_spec t0 false Hm0) as (E & C).
+    destruct (rtoExpired t0 false) as [t1 alive]. cbn [fst] in *.
+    assert (A : ackonly t1 (if alive then loopExit t1 else resetConnection t1))
+      by (destruct alive; [apply loopExit_ackonly|apply resetConnection_ackonly]).
+    apply Fin.
+    + eapply emits_then_ackonly; [|exact A]. eapply emits_weaken; [|exact E]. intros f H; left; exact H.
+    + destruct (snd_same_cfg _ _ (ackonly_snd_same _ _ A)) as (X&Y). destruct C as (X1&Y1). split; congruence.
+Qed.
